@@ -914,6 +914,27 @@ def ringKill (t : Text) : EM Unit := fun s =>
   | .ok k => .ok ((), { s with ring := k })
   | .error _ => .error (.panic, s)
 
+/-- what Enter does, given the verdict: the decision table of `command.rs:132-156` -/
+inductive AcceptAct | submit | insertNewline | stay
+deriving DecidableEq, Repr
+
+def acceptDecision (aim valid hasMsg atEnd : Bool) : AcceptAct :=
+  if valid && (atEnd || aim) then .submit
+  else if valid || !hasMsg then .insertNewline
+  else .stay
+
+/-- `Cmd::AcceptOrInsertLine` in `execute` -/
+def execAccept (aim : Bool) : EM Status := do
+  let v ← validate cfg
+  let valid := match v with | .valid _ => true | _ => false
+  let hasMsg := match v with | .valid m => m | .invalid m => m | _ => false
+  let l ← getLine
+  let atEnd := LB.isEndOfInput U l
+  match acceptDecision aim valid hasMsg atEnd with
+  | .submit => pure .submit
+  | .insertNewline => do editInsert S U cfg '\n' 1; pure .proceed
+  | .stay => pure .proceed
+
 /-- `command::execute` -/
 def execute (cmd : Cmd) : EM Status := do
   match cmd with
@@ -979,16 +1000,7 @@ def execute (cmd : Cmd) : EM Status := do
   | .acceptLine => do
     let _ ← validate cfg
     pure .submit
-  | .acceptOrInsertLine aim => do
-    let v ← validate cfg
-    let valid := match v with | .valid _ => true | _ => false
-    let hasMsg := match v with | .valid m => m | .invalid m => m | _ => false
-    let l ← getLine
-    let atEnd := LB.isEndOfInput U l
-    if valid && (atEnd || aim) then pure .submit
-    else do
-      if valid || !hasMsg then editInsert S U cfg '\n' 1
-      pure .proceed
+  | .acceptOrInsertLine aim => execAccept S U cfg aim
   | .beginningOfHistory => do editHistory S U cfg true; pure .proceed
   | .endOfHistory => do editHistory S U cfg false; pure .proceed
   | .move (.backwardWord n w) => do editMove cfg (LB.moveToPrevWord S U w n); pure .proceed
